@@ -37,6 +37,10 @@ CHECKS = {
    technique="TLA+ spec SiteModel.tla: category layout / normalisation over exact rationals with quantile atoms and the lazy-cache state machine, model-checked with TLC; transliteration validated on emitted cases; real site models compared on a parameter grid, random points, batches and all set/read histories",
    text="TLC checks probabilities sum to one, invariant category (rate 0, probability p), mean rate = mu and cache coherence over all histories of length 4 for 31 lattice cases; the real Constant/Invariant/Weibull site models are compared with the reference for K in 1..16, shapes 1e-2..1e2, invariant proportions, relative rates (1e-11), batched parameters vs slices and every set/read history of length 4 on a live object.",
    note="The Weibull quantile is a transcendental leaf evaluated by the reference in double precision; the TLA+ part is the layout and normalisation algebra (thin), hence level exploration."),
+ "C02": dict(level="model_checking", design="4/C02",
+   technique="TLA+ spec Plumbing.tla (write-ups of one tree+alignment related by rewrite actions; transcription of leaf indexing, post-order, keep_branch_lengths root merge + zero branch, Alignment sort, pattern compression) model-checked with TLC; emitted write-ups rendered to JSON and evaluated by the real TreeLikelihoodModel (equal values, predicted post-order / branch lengths / patterns / weights / tip vectors = real)",
+   text="TLC explores every write-up reachable by up to 5 (thorough 6) rewrites (permute taxa, permute sequence list, swap children anywhere, permute columns, move the root across a branch) from three reference instances (4 and 5 taxa, ambiguity / gap symbols, repeated columns) and checks that the rewrites preserve the unrooted splits-with-lengths and the column multiset and that the transcribed plumbing delivers the same tree and data to the kernel; a sub-sample of the write-ups (every one a distinct JSON document) is evaluated by the real model under HKY / GTR with tip partials, ambiguities and tip states and must agree to 1e-10 and match the predicted indices, lengths, patterns and weights.",
+   note="Reversible models only (on an UnRootedTreeModel the root sits on a root child, so non-reversible models are root-dependent by construction); codon `indices` slicing of SitePattern is not covered; replay is a sub-sample of the TLC-checked write-ups."),
 }
 
 PENDING = {}
